@@ -12,10 +12,12 @@ def gen_created(tier, rng):
     cs = [dict(id="v0", pkg="one", comp="none", n=0, extra=0, seed=1),
           dict(id="v1", pkg="two", comp="lzma", n=7, extra=2, seed=2),
           dict(id="v2", pkg="no", comp="zstd", n=12, extra=1, seed=3),
-          dict(id="v3", pkg="no", comp="lz4", n=1, extra=0, seed=4)]
+          dict(id="v3", pkg="no", comp="lz4", n=1, extra=0, seed=4),
+          dict(id="v4", pkg="two", comp="none", n=6, extra=2, seed=5, idgap=9)]
     for i in range(8 if tier == "quick" else 60):
         cs.append(dict(id="w%d" % i, pkg=rng.choice(["one", "two", "no"]), comp=rng.choice(["none", "lz4", "lzma", "zstd"]),
-                       n=rng.choice([0, 1, 2, 3, 5, 9, 17, 40]), extra=rng.choice([0, 0, 1, 2]), seed=rng.randrange(1 << 30)))
+                       n=rng.choice([0, 1, 2, 3, 5, 9, 17, 40]), extra=rng.choice([0, 0, 1, 2]), seed=rng.randrange(1 << 30),
+                       idgap=rng.choice([0, 0, 1, 30])))
     return cs
 
 
